@@ -221,7 +221,30 @@ def build():
                                 sequence_number=ctx.int(f"r{i}_seq", 0, 1000), purpose_id=sid, remote_node_id=REMOTE_ID,
                                 goodness=ctx.int(f"r{i}_goodness", 0, 1000), bell_state=ctx.enum(f"r{i}_bell", BellState))
 
-    def mk_keep_results(role, hw="generic"):
+    def _resp_k10(ctx, i, sid, creator):
+        import qlink_interface as q10
+        return q10.ResCreateAndKeep(create_id=ctx.int(f"r{i}_create_id", 0, 1000), logical_qubit_id=100 + i, directionality_flag=0 if creator else 1,
+                                    sequence_number=ctx.int(f"r{i}_seq", 0, 1000), purpose_id=sid, remote_node_id=REMOTE_ID, goodness=ctx.int(f"r{i}_goodness", 0, 1000),
+                                    time_of_goodness=ctx.int(f"r{i}_goodness_time", 0, 1000), bell_state=ctx.enum(f"r{i}_bell", q10.BellState))
+
+    def _resp_m10(ctx, i, sid, creator):
+        import qlink_interface as q10
+        return q10.ResMeasureDirectly(create_id=ctx.int(f"r{i}_create_id", 0, 1000), measurement_outcome=ctx.int(f"r{i}_outcome", 0, 1),
+                                      measurement_basis=ctx.enum(f"r{i}_basis", q10.MeasurementBasis), directionality_flag=0 if creator else 1,
+                                      sequence_number=ctx.int(f"r{i}_seq", 0, 1000), purpose_id=sid, remote_node_id=REMOTE_ID, goodness=ctx.int(f"r{i}_goodness", 0, 1000),
+                                      bell_state=ctx.enum(f"r{i}_bell", q10.BellState))
+
+    def _bell_by_name(ctx, handle_state, resp_state):
+        """the handle's Bell state (netqasm enumeration) is the state the response NAMES (whatever numbering the response's format uses)"""
+        from pyvc.values import SEnum
+        cls = resp_state.cls if isinstance(resp_state, SEnum) else type(resp_state)
+        for m in cls:
+            if ctx.truth(ctx.eq(resp_state, m)):
+                return ctx.truth(ctx.eq(ctx.getattr(handle_state, "name") if not isinstance(handle_state, str) else handle_state, m.name)) \
+                    if not isinstance(handle_state, SEnum) else ctx.truth(ctx.eq(handle_state, BellState[m.name]))
+        return False
+
+    def mk_keep_results(role, hw="generic", fmt="0.1"):
         def f(ctx):
             n = ctx.choice("number", [1, 2, 3])
             if hw == "nv":
@@ -235,7 +258,7 @@ def build():
             else:
                 qubits, results = ctx.call(epr.recv_keep_with_info, number=n, expect_phi_plus=False)
             _flush(ctx, conn)
-            resps = [_resp_k(ctx, i, sid, creator) for i in range(n)]
+            resps = [(_resp_k if fmt == "0.1" else _resp_k10)(ctx, i, sid, creator) for i in range(n)]
 
             sent = []
 
@@ -253,7 +276,12 @@ def build():
                 info = ctx.getattr(qubits[i], "entanglement_info")
                 ok = True
                 for fname in LinkLayerOKTypeK._fields:
-                    want = getattr(resps[i], fname)
+                    if fmt != "0.1":
+                        if fname in ("type", "bell_state"):
+                            continue        # type: fixed by the class; bell_state: compared by NAME below
+                        want = getattr(resps[i], {"goodness_time": "time_of_goodness"}.get(fname, fname))
+                    else:
+                        want = getattr(resps[i], fname)
                     import enum as _enum
                     from pyvc.values import SEnum
                     if isinstance(want, (SEnum, _enum.Enum)):
@@ -265,14 +293,21 @@ def build():
                 ctx.check(f"result[{i}].qubit_id", ctx.eq(ctx.getattr(res.qubit_id, "value"), resps[i].logical_qubit_id))
                 ctx.check(f"result[{i}].remote_node_id", ctx.eq(ctx.getattr(res.remote_node_id, "value"), REMOTE_ID))
                 ctx.check(f"result[{i}].generation_duration (pinned: goodness)", ctx.eq(ctx.getattr(res.generation_duration, "value"), resps[i].goodness))
-                ctx.check(f"result[{i}].bell_state", _same_member(ctx, ctx.getattr(res, "bell_state"), resps[i].bell_state))
+                if fmt == "0.1":
+                    ctx.check(f"result[{i}].bell_state", _same_member(ctx, ctx.getattr(res, "bell_state"), resps[i].bell_state))
+                else:
+                    ctx.check(f"result[{i}].bell_state is the state the response names", _bell_by_name(ctx, ctx.getattr(res, "bell_state"), resps[i].bell_state))
+                    ctx.check(f"qubit[{i}].entanglement_info.bell_state is the state the response names",
+                              _bell_by_name(ctx, ctx.call(BellState, ctx.getattr(info.bell_state, "value")), resps[i].bell_state))
         return f
     R.add("results[create_keep_with_info]", kind="lia", samples=30, max_paths=4000)(mk_keep_results("create"))
     R.add("results[recv_keep_with_info]", kind="lia", samples=30, max_paths=4000)(mk_keep_results("recv"))
     R.add("results[create_keep_with_info, NV hardware]", kind="lia", samples=30, max_paths=4000)(mk_keep_results("create", "nv"))
     R.add("results[recv_keep_with_info, NV hardware]", kind="lia", samples=30, max_paths=4000)(mk_keep_results("recv", "nv"))
+    R.add("results[create_keep_with_info, responses in qlink-interface 1.0 format]", kind="lia", samples=30, max_paths=4000)(mk_keep_results("create", fmt="1.0"))
+    R.add("results[recv_keep_with_info, responses in qlink-interface 1.0 format]", kind="lia", samples=30, max_paths=4000)(mk_keep_results("recv", fmt="1.0"))
 
-    def mk_measure_results(role):
+    def mk_measure_results(role, fmt="0.1"):
         def f(ctx):
             n = ctx.choice("number", [1, 2, 3])
             conn, ex, epr, subs, sid = _mk(ctx, sock_id=4)
@@ -282,7 +317,7 @@ def build():
             else:
                 results = ctx.call(epr.recv_measure, number=n, expect_phi_plus=False)
             _flush(ctx, conn)
-            resps = [_resp_m(ctx, i, sid, creator) for i in range(n)]
+            resps = [(_resp_m if fmt == "0.1" else _resp_m10)(ctx, i, sid, creator) for i in range(n)]
 
             def on_wait(k):
                 if k == 0:
@@ -295,10 +330,15 @@ def build():
                 ctx.check(f"result[{i}].measurement_outcome (no post-processing requested)", ctx.eq(ctx.getattr(res, "measurement_outcome"), resps[i].measurement_outcome))
                 ctx.check(f"result[{i}].remote_node_id", ctx.eq(ctx.getattr(res.remote_node_id, "value"), REMOTE_ID))
                 ctx.check(f"result[{i}].generation_duration (pinned: goodness)", ctx.eq(ctx.getattr(res.generation_duration, "value"), resps[i].goodness))
-                ctx.check(f"result[{i}].bell_state", _same_member(ctx, ctx.getattr(res, "bell_state"), resps[i].bell_state))
+                if fmt == "0.1":
+                    ctx.check(f"result[{i}].bell_state", _same_member(ctx, ctx.getattr(res, "bell_state"), resps[i].bell_state))
+                else:
+                    ctx.check(f"result[{i}].bell_state is the state the response names", _bell_by_name(ctx, ctx.getattr(res, "bell_state"), resps[i].bell_state))
         return f
     R.add("results[create_measure]", kind="lia", samples=30, max_paths=8000)(mk_measure_results("create"))
     R.add("results[recv_measure]", kind="lia", samples=30, max_paths=8000)(mk_measure_results("recv"))
+    R.add("results[create_measure, responses in qlink-interface 1.0 format]", kind="lia", samples=30, max_paths=8000)(mk_measure_results("create", "1.0"))
+    R.add("results[recv_measure, responses in qlink-interface 1.0 format]", kind="lia", samples=30, max_paths=8000)(mk_measure_results("recv", "1.0"))
 
     def canary(ctx):
         conn, ex, epr, subs, sid = _mk(ctx, sock_id=2)
